@@ -87,6 +87,7 @@ class C05(engine.Property):
         "mutation-entered-through-far-end",
         "builder-on-existing-vertices",
         "task-abandoned",
+        "short-lived-filter-callable",
     ]
 
     # -- configuration -------------------------------------------------------------
@@ -107,7 +108,15 @@ class C05(engine.Property):
         cfg["p_pattern"] = rng.choice([0.2, 0.5, 0.8])
         cfg["read_weights"] = gen.swarm_weights(rng, READS, always=("neighbors",))
         cfg["nb_filters"] = rng.choice(
-            [[None], [None, "accept", "reject"], [None, "even", "dironly"], [None, "accept", "reject", "even", "dironly"]]
+            [
+                [None],
+                [None, "accept", "reject"],
+                [None, "even", "dironly"],
+                [None, "accept", "reject", "even", "dironly"],
+                # short-lived callables (a new closure per call), as inline lambdas are
+                [None, "~accept", "~reject", "~even"],
+                ["~accept", "~reject", "~even", "~dironly", "even"],
+            ]
         )
         cfg["result_filters"] = rng.choice([[None], [None, "even", "reject"]])
         cfg["ntasks"] = rng.choice([0, 0, 1, 2, 4])
@@ -358,6 +367,8 @@ class C05(engine.Property):
             s["probe:mutation-entered-through-far-end"] += 1
         if k in ("adj_dict", "adj_matrix"):
             s["probe:builder-on-existing-vertices"] += 1
+        if str(op.get("ff") or op.get("ffv") or "").startswith("~"):
+            s["probe:short-lived-filter-callable"] += 1
         if k in ("neighbors", "trav", "search"):
             tgt = op.get("v") or op.get("s")
             if st.mut_since_read and tgt in st.focus[-6:]:
